@@ -407,8 +407,8 @@ class ReferenceRepresentation(Representation):
         else:
             # convert the 1s into simplex names of the faces
             ss = self._indices[k + 1]
-            fs = numpy.compress((self._boundaries[k + 1])[i], ss)
-            return list(fs)
+            row = (self._boundaries[k + 1])[i]
+            return [ss[j] for j in range(len(ss)) if row[j] == 1]
 
     def boundaryOperator(self, k: int) -> numpy.ndarray:
         """Return the boundary operator of the k-simplices.
